@@ -75,7 +75,7 @@ fn gen_fledger(r: &mut Rng, last: NaiveDate) -> Vec<FTx> {
     out
 }
 
-fn xml(period: (i32, u32), rows: &[(&str, Decimal)]) -> String {
+pub(crate) fn xml(period: (i32, u32), rows: &[(&str, Decimal)]) -> String {
     let dim = NaiveDate::from_ymd_opt(if period.1 == 12 { period.0 + 1 } else { period.0 }, if period.1 == 12 { 1 } else { period.1 + 1 }, 1).expect("d").pred_opt().expect("d").day();
     let m = MONTHS[(period.1 - 1) as usize];
     let mut s = format!("<exchangeRateMonthList Period=\"01/{m}/{} to {dim}/{m}/{}\">\n", period.0, period.0);
@@ -285,7 +285,9 @@ fn loader_part(ctx: &mut Ctx, bundled: &FxCache, r: &mut Rng) {
             let mo = 1 + r.below(12) as u32;
             let mtime = 1_000 + r.below(5) * 10 + k as u64; // distinct, possibly out of list order
             let mut rows: Vec<(&str, Decimal)> = Vec::new();
-            for c in ["USD", "EUR", "JPY", "VEF"] { if r.chance(2, 3) { rows.push((c, Decimal::new(r.range(1, 300_000), 4))); } }
+            // four decimals as HMRC publishes them; every seventh drawn value is read at eight decimals instead
+            // (a rate is kept digit for digit, however fine)
+            for c in ["USD", "EUR", "JPY", "VEF"] { if r.chance(2, 3) { let v = r.range(1, 300_000); rows.push((c, Decimal::new(v, if v % 7 == 0 { 8 } else { 4 }))); } }
             if rows.is_empty() { rows.push(("USD", Decimal::new(r.range(1, 300_000), 4))); } // an empty list is not valid XML for the loader
             if r.chance(1, 8) { rows.push(("USD", Decimal::new(r.range(1, 300_000), 4))); } // duplicate row: last wins
             let fault = r.below(14);
